@@ -81,13 +81,21 @@ HashSensitive == (l = 1) => (Cardinality(HashRel) = Cardinality(HashHids) \/ ~Ba
 
 ----------------------------------------------------------------------------
 (* conformance: the transcription says what the code says (always TRUE; prints the drifting lines) *)
+\* Schemes with "ballast" add one and the same (unit, 1 replica, 1 http endpoint) element to every group of both
+\* sides: Cross and the oracle are unchanged by it, ValidateManifest no longer sees an empty group or a manifest
+\* without a global service.
+ValidB(m, ballast) ==
+    IF ballast THEN /\ Len(m) > 0
+                    /\ \A i \in DOMAIN m : \A k \in DOMAIN m[i].recs : m[i].recs[k].c >= 1
+                    /\ NamesDistinct(m)
+    ELSE Valid(m)
 ConformPairLine ==
     IsPair(R) => \A k \in DOMAIN R.res :
-        /\ R.res[k].valid = Valid(M)
+        /\ R.res[k].valid = ValidB(M, R.res[k].ballast)
         /\ R.res[k].cross = Cross(M, D)
         /\ R.res[k].resrej = ResRejected(M, D)
-        /\ R.res[k].accepted = Accept(M, D)
+        /\ R.res[k].accepted = (ValidB(M, R.res[k].ballast) /\ Cross(M, D) = "ok")
 ConformGateLine ==
-    IsGate(R) => (R.accepted = (R.sub = Expected(R) /\ Accept(M, D)))
+    IsGate(R) => (R.accepted = (R.sub = Expected(R) /\ ValidB(M, R.ballast) /\ Cross(M, D) = "ok"))
 Conform == (ConformPairLine /\ ConformGateLine) \/ PrintT(<<"DRIFTLINE", l>>)
 =============================================================================
